@@ -577,6 +577,8 @@ def bits_eval(fx, e, env, depth=5):
             return None if b == 0 else (a % b if op == "Rem" else a // b)
         return {"BitAnd": a & b, "BitOr": a | b, "BitXor": a ^ b, "Add": (a + b) & M64, "Sub": (a - b) & M64, "Mul": (a * b) & M64,
                 "Eq": int(a == b), "Ne": int(a != b), "Lt": int(a < b), "Le": int(a <= b), "Gt": int(a > b), "Ge": int(a >= b)}.get(op)
+    if k == "call" and isinstance(e[1], str) and (e[1].endswith("NonZero::get") or e[1].endswith("NonZero::new_unchecked")) and len(e[2]) == 1:
+        return bits_eval(fx, e[2][0], env, depth)  # the integer inside a NonZero wrapper
     if k == "call" and isinstance(e[1], str) and depth > 0:
         cb = fx.body(e[1])
         if cb is None or cb.kind not in ("Fn", "AssocFn") or cb.n > 150:
